@@ -126,6 +126,9 @@ type sample struct {
 func (w *world) Run(t *rt.Tape, trace bool) *core.Result {
 	res := &core.Result{Faults: map[string]int{}, Reach: map[string]int{}}
 	core.BeginRun(t)
+	if t.Choose(rt.SGen, 5) == 0 {
+		return w.runCOT(t, trace, res)
+	}
 	rS, rR, rH := simrand.Stream("S"), simrand.Stream("R"), simrand.Stream("harness")
 	nTrials := 8 + t.Choose(rt.SGen, 40)
 	var trials []*trial
@@ -300,6 +303,170 @@ func (w *world) Run(t *rt.Tape, trace bool) *core.Result {
 			res.Reach["accepted-with-intact-correlation(unselected column or padding row or response-only)"]++
 		} else {
 			res.Reach["honest-accepted"]++
+		}
+	}
+	return res
+}
+
+// runCOT is the same deviation one layer up, where the malicious option is
+// set: a pair of ot.COT instances created with malicious = true serves several
+// Send/Receive batches; the batches before the last are honest, the last one
+// carries the alterations of the receiver's extension matrix. The sender
+// must abort that batch or deliver, for every position, exactly the label
+// the receiver's original choice selects.
+func (w *world) runCOT(t *rt.Tape, trace bool, res *core.Result) *core.Result {
+	rS, rR, rH := simrand.Stream("S"), simrand.Stream("R"), simrand.Stream("harness")
+	nb := 1 + t.Choose(rt.SGen, 4)
+	batches := make([]*trial, nb)
+	wires := make([][]ot.Wire, nb)
+	for i := range batches {
+		batches[i] = drawTrial(t, rH, i)
+		if i < nb-1 {
+			batches[i].Flips, batches[i].LabelTamper, batches[i].desc = nil, 0, "honest"
+		}
+		wires[i] = make([]ot.Wire, batches[i].N)
+		for j := range wires[i] {
+			l0, _ := ot.NewLabel(rH)
+			l1, _ := ot.NewLabel(rH)
+			wires[i][j] = ot.Wire{L0: l0, L1: l1}
+		}
+	}
+	realBase := t.Choose(rt.SGen, 8) == 0
+	smp := sample{Base: "COT(malicious) over a stub base OT"}
+	if realBase {
+		smp.Base = "COT(malicious) over real Chou-Orlandi base OTs"
+	}
+	for i, b := range batches {
+		smp.Trials = append(smp.Trials, fmt.Sprintf("batch %d: n=%d %s", i, b.N, b.desc))
+	}
+	res.Sample = smp
+	res.Class = "cot-session"
+	res.Reach["mode.cot-session"]++
+
+	var setupErr error
+	sBatches, rBatches := 0, 0 // completed calls
+	cur, msgBase := -1, 0
+	rr := rt.Run(rt.Config{Trace: trace, NoProgress: core.NoProgressDefault}, t, func() {
+		es, er := simio.Pair("S", "R")
+		er.Tamper = func(idx int, m *simio.Msg) {
+			if cur < 0 {
+				return
+			}
+			tr := batches[cur]
+			k := idx - msgBase
+			payloadChunks := (tr.N + chunkRows - 1) / chunkRows
+			if m.Kind == simio.KData {
+				for _, f := range tr.Flips {
+					if f.Msg != k {
+						continue
+					}
+					byteRows := len(m.Data) / 128
+					pos := f.Col*byteRows + f.Row/8
+					if byteRows == 0 || f.Row/8 >= byteRows || pos >= len(m.Data) {
+						continue
+					}
+					m.Data[pos] ^= 1 << (f.Row % 8)
+					tr.fired++
+					res.Faults["flip-matrix-of-a-cot-batch"]++
+				}
+			} else if m.Kind == simio.KLabel && tr.LabelTamper > 0 {
+				if k-(payloadChunks+1) == tr.LabelTamper-1 {
+					m.L.D1 ^= 0x10
+					tr.fired++
+					res.Faults["alter-challenge-response"]++
+				}
+			}
+		}
+		rt.GoParty("S", "cot-sender", func() {
+			var base ot.OT = &simio.ClearOT{}
+			if realBase {
+				base = ot.NewCO(rS)
+			}
+			c := ot.NewCOT(base, rS, true, false)
+			if setupErr = c.InitSender(es); setupErr != nil {
+				es.Close()
+				return
+			}
+			for i, tr := range batches {
+				tr.sendErr = c.Send(wires[i])
+				sBatches++
+				if tr.sendErr != nil {
+					break
+				}
+			}
+			es.Close() // the session ends: a receiver still waiting gets an error
+		})
+		rt.GoParty("R", "cot-receiver", func() {
+			var base ot.OT = &simio.ClearOT{}
+			if realBase {
+				base = ot.NewCO(rR)
+			}
+			c := ot.NewCOT(base, rR, true, false)
+			if err := c.InitReceiver(er); err != nil {
+				setupErr = err
+				return
+			}
+			for i, tr := range batches {
+				cur, msgBase = i, er.SentN
+				tr.recv = make([]ot.Label, tr.N)
+				tr.recvErr = c.Receive(tr.Choices, tr.recv)
+				rBatches++
+				if tr.recvErr != nil {
+					break
+				}
+			}
+			cur = -1
+		})
+	})
+	core.Finish(res, rr)
+	res.Nontrivial = true
+	if res.Inconclusive != "" {
+		return res
+	}
+	fail := func(clause, detail string) *core.Result {
+		res.Fail = &core.Failure{Clause: clause, Detail: detail}
+		return res
+	}
+	if len(rr.Crashed) > 0 {
+		return fail("panic", core.CrashDetail(rr))
+	}
+	if setupErr != nil {
+		return fail("setup-error", setupErr.Error())
+	}
+	for i, tr := range batches {
+		if i >= sBatches {
+			return fail("did-not-terminate", fmt.Sprintf("COT session: the sender never finished batch %d of %d (%v; %v)", i, len(batches), rr.Outcome, rr.Blocked))
+		}
+		tampered := tr.fired > 0
+		if tr.sendErr != nil {
+			if !tampered {
+				return fail("honest-abort", fmt.Sprintf("COT session: batch %d (n=%d) had no alteration but the sender aborted: %v", i, tr.N, tr.sendErr))
+			}
+			res.Reach["cot-sender-aborted-on-tampering"]++
+			return res
+		}
+		// the sender accepted batch i
+		if i >= rBatches || tr.recvErr != nil {
+			if tampered {
+				// e.g. the challenge response was altered towards the receiver's own failure
+				res.Reach["cot-receiver-failed-on-tampered-batch"]++
+				return res
+			}
+			return fail("receiver-error", fmt.Sprintf("COT session: honest batch %d (n=%d): receiver err=%v finished=%v (%v)", i, tr.N, tr.recvErr, i < rBatches, rr.Outcome))
+		}
+		for j := 0; j < tr.N; j++ {
+			want := wires[i][j].L0
+			if tr.Choices[j] {
+				want = wires[i][j].L1
+			}
+			if !tr.recv[j].Equal(want) {
+				return fail("accepted-inconsistent", fmt.Sprintf("COT session (malicious option on), batch %d of %d (n=%d %s): the sender accepted, but at position %d the receiver holds %v, not the label %v its original choice %v selects", i, len(batches), tr.N, tr.desc, j, tr.recv[j], want, tr.Choices[j]))
+			}
+		}
+		if tampered {
+			res.Reach["cot-accepted-with-correct-labels(unselected column or padding row)"]++
+		} else {
+			res.Reach["cot-honest-batch-accepted"]++
 		}
 	}
 	return res
